@@ -15,6 +15,36 @@ CASE_SCALE = {}
 # between implementation and model on the projection is then a concrete failing input
 FUNCTIONAL = {}
 
+# properties whose statement covers whether a document is accepted / generation succeeds / an error is reported
+# (conditions never cause errors, path errors, null handling, undeclared class, missing partial folders, determinism of
+# the outcome, validation, crashes, exit status); for the others an accept/reject difference between model and
+# implementation is left to these
+def _tags(oi, om):
+    return {o[1].split("(")[0] for o in (oi, om) if o[0] in ("parse", "gen")}
+
+
+def _phases(oi, om):
+    return {oi[0], om[0]}
+
+
+# pid -> does this accept/reject/fail difference (outcome of the implementation, of the model: (phase, tag) with phase
+# ok | parse | gen | crash) concern the property?
+OUTCOME_OWNERS = {
+    # an excluded entry causes no error, an included one does: everything after validation
+    "C06": lambda oi, om, c: "parse" not in _phases(oi, om),
+    # path errors: everything after validation
+    "C07": lambda oi, om, c: "parse" not in _phases(oi, om),
+    # "an explicit null disables it": null on the overridable options must be accepted
+    "C08": lambda oi, om, c: "NullValueOnNonNull" in _tags(oi, om),
+    "C10": lambda oi, om, c: "MissingVramClassForSegment" in _tags(oi, om),
+    "C11": lambda oi, om, c: c.partial and "MissingRequiredField" in _tags(oi, om),
+    "C15": lambda oi, om, c: True,
+    # validation: the parse phase
+    "C16": lambda oi, om, c: "parse" in _phases(oi, om),
+    "C19": lambda oi, om, c: "crash" in _phases(oi, om),
+    "C20": lambda oi, om, c: True,
+}
+
 
 def static_obligations(pid):
     """(obligations, discharged, broken notes) beyond the Coq theorems, e.g. source scans"""
@@ -74,10 +104,22 @@ NONTRIVIAL = {
     "C20": lambda c, j: props.outcome(j)[0] == "ok",
 }
 RULES.update({
-    "C16": DEFAULT_RULE + "; C16: every case counts, distinct = distinct (outcome, parsed document)",
+    "C16": DEFAULT_RULE + "; C16: every case counts, distinct = distinct (accept/reject outcome with its error tag, serial document "
+           "as written)",
     "C19": DEFAULT_RULE + "; C19: every case counts, distinct = distinct outcome (tag of success / error value / crash) "
            "and, for the hostile byte stream, its mutation kind",
 })
+
+
+def coverage_key(pid, c, ji, oi):
+    """what 'distinct' counts for the evidence: by default the property's observable projection"""
+    from . import props
+    if pid == "C16":
+        return [oi, c.doc if c.raw_yaml is None else c.raw_yaml.hex()]
+    if pid == "C19":
+        o = props.outcome(ji)
+        return [oi, o[0], o[1].split("(")[0]]
+    return oi
 
 
 def nontrivial(pid, case, ji):
